@@ -64,8 +64,16 @@ var potentialDeadlocks atomic.Int64
 
 func TestMain(m *testing.M) {
 	// go-deadlock's default reaction to a lock wait of 30 s is os.Exit(2) of the whole harness; count instead.
+	// Its lock-ORDER heuristic keys on lock addresses, which the hundreds of short-lived Subprocess objects of this
+	// harness recycle (258 bogus "inconsistent locking" reports in one quick run): switched off.
+	deadlock.Opts.DisableLockOrderDetection = true
 	deadlock.Opts.OnPotentialDeadlock = func() { potentialDeadlocks.Add(1) }
 	deadlock.Opts.LogBuf = discard{}
+	if f := os.Getenv("VERIF_C05_DEADLOCK_LOG"); f != "" {
+		if w, err := os.Create(f); err == nil {
+			deadlock.Opts.LogBuf = w
+		}
+	}
 	ev.Main(m)
 }
 
@@ -892,7 +900,7 @@ func TestC05(t *testing.T) {
 	rep.Coverage["not_applicable_cells"] = notApplicable
 	rep.Coverage["processes_killed_by_cleanup"] = killed
 	rep.Coverage["processes_left_after_all_cells"] = leftovers
-	rep.Coverage["go_deadlock_potential_deadlock_reports"] = potentialDeadlocks.Load()
+	rep.Coverage["go_deadlock_lock_waits_over_30s"] = potentialDeadlocks.Load()
 	rep.Assume = []string{
 		"configurations (shape x start x stop x event-defined instant) are enumerated completely and each is run once for real; the kernel's scheduling and signal-delivery order inside one configuration, and the interleaving of the library's goroutines, are NOT controlled or enumerated",
 		"the tree is gated: at the stop instant no process of the tree is in the middle of a fork; a stop racing a fork is not explored",
